@@ -138,3 +138,8 @@ package xpush
 //@   before call:SetPrivate#1 assert p.p == pp && p.s == s
 //@
 // ---- end generated AddPipe contracts ----
+// ---- generated Info contracts (tools/gen_info_contracts.py) ----
+//@ func (*socket).Info
+//@   ensures result.Self == 80 && result.Peer == 81 && result.SelfName == "push" && result.PeerName == "pull"
+//@
+// ---- end generated Info contracts ----
